@@ -568,7 +568,7 @@ def rule_reg_type_seen(chk, A):
     """no register id is packed for an operand whose register type nobody looked at"""
     from .must import Must
     R = "R-REG-TYPE-LOOKED-AT"
-    chk.rule(R, "a64 _emit: `opcode.add_reg(oK, pos)` is reached only on paths on which some expression read oK's register type (reg_type / "
+    chk.rule(R, "a64 _emit: between `opcode.add_reg(oK, pos)` and the emission of the word some expression read oK's register type - before or after the pack - (reg_type / "
                 "signature / is_gp* / is_vec* / element_type, directly or inside a unit helper that was handed oK): the register field holds "
                 "only `id & 31`, so an operand whose type was never looked at is encoded as whatever register class the instruction implies")
     emit, helpers = A["emit"], A["helpers"]
@@ -616,16 +616,47 @@ def rule_reg_type_seen(chk, A):
                     adds.append(("typed", rx["did"]))
         return (tuple(adds), ()) if adds else None
     m = Must(emit, elem, None)
-    n = 0
-    for i, x in sorted(emit.calls(lambda x: x["k"] == "mcall" and x.get("cn") == "add_reg" and x.get("args"))):
+    from .cfg import forward
+    packs = {}
+    for i, x in emit.calls(lambda x: x["k"] == "mcall" and x.get("cn") == "add_reg" and x.get("args")):
         a = emit.e(emit.strip(x["args"][0]))
-        if a is None or a["k"] != "ref" or a.get("did") not in ops:
-            continue
+        if a is not None and a["k"] == "ref" and a.get("did") in ops:
+            packs[i] = a["did"]
+    emits = {i for i, x in emit.calls(lambda x: x["k"] == "mcall" and x.get("cn") in ("emit32u_le", "emit32u"))}
+    chk.need(len(emits) >= 1, "a64 _emit: no emit32u_le call found")
+    reached = {}
+
+    def transfer(b, st, report=False):
+        st = set(st)
+        for el in emit.blocks[b]["elems"]:
+            if not isinstance(el, int):
+                continue
+            x = emit.e(el)
+            if x is None:
+                continue
+            fx = elem(el, x)
+            if fx:
+                for f_ in fx[0]:
+                    st = {t for t in st if t[0] != f_[1]}
+            if el in packs and ("typed", packs[el]) not in (m.before(el) or frozenset()):
+                st.add((packs[el], el))
+            if el in emits and report:
+                for t in st:
+                    reached.setdefault(t[1], el)
+        return frozenset(st)
+    IN, OUT = forward(emit, frozenset(), lambda b, st: transfer(b, st), lambda ss: frozenset().union(*ss))
+    for b in emit.blocks:
+        if b in IN:
+            transfer(b, IN[b], report=True)
+    n = 0
+    for i, did in sorted(packs.items()):
+        x = emit.e(i)
         n += 1
         regs = [r[5:] for r in A["regions"].group_of_line(x["l"]) if r.startswith("case:")]
-        chk.ob(R, "a64::_emit|%s|%s@%d" % ("+".join(regs) or "tail", ops[a["did"]], n), ("typed", a["did"]) in (m.before(i) or frozenset()), loc=emit.loc(i),
-               detail="`%s` packs the id of %s although no path to it ever read that operand's register type: a register of another width or "
-                      "class is encoded as if it were the expected one" % (" ".join(emit.text(i).split())[:40], ops[a["did"]]),
-               key="regtype|%s|%s" % ("+".join(regs) or "tail", ops[a["did"]]))
+        chk.ob(R, "a64::_emit|%s|%s@%d" % ("+".join(regs) or "tail", ops[did], n), i not in reached, loc=emit.loc(i),
+               detail="`%s` packs the id of %s and the instruction word can be emitted although no path between the start of the case and the "
+                      "emission ever read that operand's register type: a register of another width or class is encoded as if it were the "
+                      "expected one" % (" ".join(emit.text(i).split())[:40], ops[did]),
+               key="regtype|%s|%s" % ("+".join(regs) or "tail", ops[did]))
     chk.floor(R + ":packs", n, 100)
     chk.floor(R + ":type-reading-helpers", sum(1 for v in summ.values() if v), 8)
